@@ -9,6 +9,7 @@ use serde_json::json;
 use std::collections::BTreeSet;
 
 pub fn run(r: &mut Report) {
+    crate::c01::agreement_matrix(r, 12, "order-independence");
     let owner = key(1);
     let ks = [key(2), key(3), key(4), key(5)];
     // threshold 1, four valid authorised links that differ in their products
